@@ -23,7 +23,8 @@
 (***************************************************************************)
 EXTENDS Naturals, Integers, Sequences, FiniteSets, TLC
 
-CONSTANTS LatSteps      \* link latency in steps (>= 1) configured by the Builder
+CONSTANTS LatSteps,     \* link latency in steps (>= 1) configured by the Builder
+          EphPorts      \* size of the range given to Builder::ephemeral_ports, 0 = the default (16 384 ports)
 
 Hosts == {1, 2}
 Other(h) == 3 - h
@@ -173,8 +174,18 @@ P_CmdRes(id, h, inc, kind, c, res) ==
     /\ UNCHANGED <<pstep, pdg, plat>>
 
 \* The step is over; polls / sent = activity and send counters of both hosts.
-P_StepEnd(polls, sent) ==
+\* ports a host may legitimately hold for outgoing connections: one per connect of its current
+\* incarnation that is pending or returned ok (an over-estimate: closed streams are not subtracted)
+HeldPorts(h) ==
+    Cardinality({o \in OpIds : pops[o].h = h /\ pops[o].inc = ph[h].inc /\ pops[o].kind = "connect"
+                                /\ pops[o].res \in {"pend", "ok"}})
+
+\* okc = how Sim::step ended: "ok", "ports" (it panicked with "... ports exhausted") or "other".
+P_StepEnd(polls, sent, okc) ==
     /\ bad' = bad
+         \* "its ports can be bound again": the ephemeral ports of torn-down streams and abandoned
+         \* connects are free again, so the range is only exhausted by what a host really holds
+         \cup Flag(okc = "ports" => \E h \in Hosts : EphPorts > 0 /\ HeldPorts(h) > EphPorts, "Rebind")
          \* "causes no further observable effect until it is bounced"
          \cup Flag(\A h \in Hosts : ~ph[h].up => (polls[h] = ph[h].fpolls /\ sent[h] = ph[h].fsent),
                    "StopsDead")
